@@ -12,7 +12,7 @@ CONSTANTS
   Prefits = {"none", "fit", "fitbase"}
   CfgSel = "all"
   Sample = 0
-  Depth = 4
+  Depth = 5
 VIEW MCView
 INVARIANT TypeOK
 INVARIANT ImpliedWellFormed
